@@ -1,5 +1,6 @@
 """C02 — the tomographic reconstructor is the minimum-variance linear estimator."""
 import contextlib
+import copy
 import os
 
 for _v in ("OPENBLAS_NUM_THREADS", "OMP_NUM_THREADS", "MKL_NUM_THREADS"):      # small matrices: BLAS threads only cost
@@ -932,6 +933,18 @@ def oracle_endtoend(chk, quick):
             Rw = numpy.asarray(S.create_tomographic_covariance_reconstructor(Cn, obj2.n_subaps[0], 0)).astype(float)
             Rr = numpy.asarray(reference(Cn, obj2.n_subaps[0], 0)).astype(float)
             chk.count("oracle:endtoend:rebuild:threads=%d:%s" % (thr, changed))
+            # round 6: … and the matrix the object holds now is the matrix of the geometry it has NOW: a fresh object given the same
+            # attribute before its first build (seeded changes C02-L / C01-K: the per-layer footprints were appended to lists that are only
+            # reset in __init__, so a rebuild read the first build's geometry)
+            fresh = mk_obj(lay_alt, lay_r0, lay_L0, 1)
+            setattr(fresh, changed, copy.deepcopy(getattr(obj2, changed)))
+            Cf = numpy.asarray(fresh.make_covariance_matrix()).astype(float)
+            dC = float(numpy.abs(Cn.astype(float) - Cf).max()) if Cn.shape == Cf.shape else float("inf")
+            if not within(chk, "history:rebuild:geometry", dC, TOL32 * (numpy.abs(Cf).max() + 1e-300)):
+                chk.fail("state:rebuild-uses-old-geometry", "after %s was changed and make_covariance_matrix() re-run (threads=%d) the matrix differs "
+                         "from the one a fresh object with the same attributes builds: max difference %.3g (largest entry %.3g)"
+                         % (changed, thr, dC, float(numpy.abs(Cf).max())),
+                         dict(cfg, threads=thr, changed=changed, new_value=numpy.asarray(getattr(obj2, changed)).tolist()))
             if Rn.shape != Rw.shape or not numpy.array_equal(Rn, Rw) or not within(
                     chk, "history:method:rebuild", float(numpy.abs(Rn - Rr).max()), TOL32 * (numpy.abs(Rr).max() + 1e-300)):
                 chk.fail("state:stale-after-rebuild", "after %s was changed and make_covariance_matrix() re-run (threads=%d), "
